@@ -100,6 +100,7 @@ namespace Givaro {
         Rep& negin( Rep& r ) const { Integer::negin(r.num); return r; }
 
         Rep& inv( Rep& r, const Rep& a ) const {
+            if (&r == &a) return invin(r); // r.num would be overwritten before a.num is read
             const int snum( sign(a.num) );
 #ifdef __GIVARO_DEBUG
             if (snum == 0)
